@@ -109,6 +109,9 @@ func NewClusterClient(r ClientResolver) ClusterClient {
 
 // defaultPollBackOff returns the default backoff used on Poll operations.
 func (c *clusterClient) defaultPollBackOff() backoff.BackOff {
+	if b := verifPollBackOff(); b != nil {
+		return b
+	}
 	return &backoff.ExponentialBackOff{
 		InitialInterval:     time.Second,
 		RandomizationFactor: 0.05,
